@@ -123,6 +123,11 @@ def harness(tier, seed):
         rng.shuffle(far)
         pts_far = far[:max(2, min(n, len(far)))]
 
+        # cities at the same location (ali535 has 29 such pairs): int(RRR * acos(...) + 1.0) = 1 under GEO
+        pts_twins = list(pts_dec)
+        if len(pts_twins) >= 3:
+            pts_twins[rng.randrange(1, len(pts_twins))] = pts_twins[0]
+
         def ceil_exact(a, b):
             d2 = (a[0] - b[0]) ** 2 + (a[1] - b[1]) ** 2
             return 0 if d2 == 0 else math.isqrt(d2 - 1) + 1
@@ -131,9 +136,10 @@ def harness(tier, seed):
             return (math.isqrt(4 * ((a[0] - b[0]) ** 2 + (a[1] - b[1]) ** 2)) + 1) // 2
         for ewt, fn, pts in (("EUC_2D", d_euc, pts_int), ("CEIL_2D", d_ceil, pts_int), ("ATT", d_att, pts_int),
                              ("CEIL_2D", ceil_exact, pts_far), ("EUC_2D", euc_exact, pts_far),
-                             ("EUC_2D", d_euc, pts_dec), ("GEO", d_geo, pts_dec), ("ATT", d_att, pts_dec)):
+                             ("EUC_2D", d_euc, pts_dec), ("GEO", d_geo, pts_dec), ("ATT", d_att, pts_dec),
+                             ("GEO", d_geo, pts_twins)):
             n = len(pts)
-            if len(set(pts)) < n:
+            if len(set(pts)) < n and ewt != "GEO":      # (TSPLIB95's GEO distance of two cities at the same place is 1, not 0)
                 continue
             txt = ["NAME: pts", "TYPE: TSP", f"DIMENSION: {n}", f"EDGE_WEIGHT_TYPE: {ewt}", "NODE_COORD_SECTION"] + \
                   [f"{k + 1} {p[0]} {p[1]}" for k, p in enumerate(pts)] + ["EOF"]
@@ -172,5 +178,5 @@ def harness(tier, seed):
     return {"name": "tsplib", "evaluations": evals, "distinct_nontrivial": len(distinct) + ntours,
             "rule": f"all {ntours} shipped optimal tours (exhaustive over the data); generated matrices n <= 9 with values up to "
                     "10^12/n: write/read round trip, four explicit formats with random line wrapping; generated integer and "
-                    "decimal point sets: EUC_2D, CEIL_2D, ATT, GEO vs independent TSPLIB95 formulas",
+                    "decimal point sets (GEO also with two cities at the same location): EUC_2D, CEIL_2D, ATT, GEO vs independent TSPLIB95 formulas",
             "samples": samples, "violations": viol, "exhaustive": False}
